@@ -12,8 +12,8 @@ import (
 )
 
 func init() {
-	register("C09", "Structural clauses of the walk contract: the protocol's path comparison is evaluated under every one of the 13 weak orderings of (byte of p1, byte of p2, separator) and must put the separator lowest and otherwise follow byte order, with the length difference as the tail (finite-ordering evaluation of the SSA branch conditions, exhaustive); the root is never reported; stats are built truthfully by one constructor from lstat-based sources (shared with C01); the inode map is per walk and link names come only from a hit under Nlink>1; sub-root walks prefix path, non-symlink link names and the reported path; the walker's root is the checked result of filepath.EvalSymlinks, tested to be a directory; enumeration is delegated to filepath.WalkDir on root+target. Extended attributes are listed for every kind of entry (loadXattr cannot succeed without llistxattr, mkstat not without loadXattr). loadXattr reads each listed name from the listed path and records it under that name, records every successful read, stores a non-empty result and passes over only names with the platform's skipped prefix; sub-root link names are rewritten only when present (absolute symlink targets only), with the sub-root's name first; every byte access of the path comparison is guarded by index < length. Does not decide 'every entry exactly once' or directory-before-contents (contract of filepath.WalkDir, trusted).", runC09)
-	register("C12", "Structural clauses of the stream validator: a fatal test exists for every lexical rejection class (unclean, absolute, '.', '..', '../' prefix), the last-child comparison rejects the orderings equal and greater and accepts less, a foreign parent is rejected, directory levels are opened only for non-delete directories, and the path comparison is the separator-lowest byte order under all 13 weak orderings of its atoms (exhaustive finite-ordering evaluation). The consumers of changes (both validators, the disk writer) call no method of the FileInfo of a delete. Does not decide the 'if and only if' for all sequences nor the binary search over the open-directory stack.", runC12)
+	register("C09", "Structural clauses of the walk contract: the protocol's path comparison is evaluated under every one of the 13 weak orderings of (byte of p1, byte of p2, separator) and must put the separator lowest and otherwise follow byte order, with the length difference as the tail (finite-ordering evaluation of the SSA branch conditions, exhaustive); the root is never reported; stats are built truthfully by one constructor from lstat-based sources (shared with C01); the inode map is per walk and link names come only from a hit under Nlink>1; sub-root walks prefix path, non-symlink link names and the reported path, and report an entry built over the stat so rewritten, never the sub-walk's own entry; the walker's root is the checked result of filepath.EvalSymlinks, tested to be a directory; enumeration is delegated to filepath.WalkDir on root+target. Extended attributes are listed for every kind of entry (loadXattr cannot succeed without llistxattr, mkstat not without loadXattr). loadXattr reads each listed name from the listed path and records it under that name, records every successful read, stores a non-empty result and passes over only names with the platform's skipped prefix; sub-root link names are rewritten only when present (absolute symlink targets only), with the sub-root's name first; every byte access of the path comparison is guarded by index < length. Does not decide 'every entry exactly once' or directory-before-contents (contract of filepath.WalkDir, trusted).", runC09)
+	register("C12", "Structural clauses of the stream validator: a fatal test exists for every lexical rejection class (unclean, absolute, '.', '..', '../' prefix), the last-child comparison rejects the orderings equal and greater and accepts less, a foreign parent is rejected, directory levels are opened only for non-delete directories, and the path comparison is the separator-lowest byte order under all 13 weak orderings of its atoms (exhaustive finite-ordering evaluation). The consumers of changes (both validators, the disk writer) call no method of the FileInfo of a delete. The open-directory stack is never re-sliced past its current length (upper bound affine in the length and the search result, checked at both ends of the search range), so the record of a closed directory cannot come back. Does not decide the 'if and only if' for all sequences nor the outcome of the binary search over the open-directory stack.", runC12)
 }
 
 func runC09(c *Ctx) {
@@ -172,6 +172,106 @@ func runC12(c *Ctx) {
 	r03_3(c, "R12.2")
 	r09_1(c, "R12.3")
 	r12_4(c, "R12.4")
+	r12_5(c, "R12.5")
+}
+
+// R12.5: the stack of open directories only shrinks when it is cut.
+//
+// Validator.HandleChange finds the open directory an entry belongs to with a
+// binary search over v.parentDirs and cuts the stack back to it. Entries that
+// were cut off stay in the backing array: a cut whose upper bound can exceed
+// the current length brings the record of a closed directory back, with its
+// old last child, and a path inside a directory the stream already left is
+// accepted. The bound is read as an affine expression a*len + b*s + k of the
+// stack length and the search result s in [0, len]; it must be <= len for
+// every s.
+func r12_5(c *Ctx, rule string) {
+	c.R.Rule(rule, "Validator.HandleChange: every re-slice of v.parentDirs has an upper bound that cannot exceed the current length (affine in the length and the sort.Search result, evaluated at both ends of the search range)")
+	fn := c.Fn(rule, "fsutil.(*Validator).HandleChange")
+	if fn == nil {
+		return
+	}
+	const field = "fsutil.Validator.parentDirs"
+	isStack := func(v ssa.Value) bool { return isFieldLoad(v, field) }
+	type aff struct{ a, b, k int64 } // a*len + b*search + k
+	var search *ssa.Call
+	var eval func(v ssa.Value, d int) (aff, bool)
+	eval = func(v ssa.Value, d int) (aff, bool) {
+		if d > 12 {
+			return aff{}, false
+		}
+		if k, ok := eng.ConstInt(v); ok {
+			return aff{0, 0, k}, true
+		}
+		switch x := v.(type) {
+		case *ssa.Call:
+			switch c.P.CalleeName(x) {
+			case "builtin:len":
+				if len(x.Call.Args) == 1 && isStack(x.Call.Args[0]) {
+					return aff{1, 0, 0}, true
+				}
+			case "sort.Search":
+				// the range searched is [0, len(stack))
+				if n, ok := eval(x.Call.Args[0], d+1); ok && n == (aff{1, 0, 0}) {
+					if search == nil || search == x {
+						search = x
+						return aff{0, 1, 0}, true
+					}
+				}
+			}
+		case *ssa.BinOp:
+			l, ok1 := eval(x.X, d+1)
+			r, ok2 := eval(x.Y, d+1)
+			if !ok1 || !ok2 {
+				return aff{}, false
+			}
+			switch x.Op {
+			case token.ADD:
+				return aff{l.a + r.a, l.b + r.b, l.k + r.k}, true
+			case token.SUB:
+				return aff{l.a - r.a, l.b - r.b, l.k - r.k}, true
+			}
+		case *ssa.Convert:
+			return eval(x.X, d+1)
+		case *ssa.ChangeType:
+			return eval(x.X, d+1)
+		}
+		return aff{}, false
+	}
+	stores := fieldStoresIn(fn, field)
+	n := 0
+	eng.InstrsShallow(fn, func(in ssa.Instruction) {
+		sl, ok := in.(*ssa.Slice)
+		if !ok || !isStack(sl.X) || sl.High == nil {
+			return
+		}
+		n++
+		con := fmt.Sprintf("%s/stack-cut#%d/bound", c.name(fn), n)
+		search = nil
+		e, ok := eval(sl.High, 0)
+		if !ok {
+			c.R.OK(rule, con, c.pos(sl), "the upper bound of this cut is not an affine expression of the stack length and a sort.Search over it: not decided")
+			return
+		}
+		// the length the bound was computed from is the length at the cut
+		for _, st := range stores {
+			if search != nil && eng.Dominates(search, st) && eng.Dominates(st, sl) {
+				c.R.OK(rule, con, c.pos(sl), "the stack is reassigned between the search and this cut: not decided")
+				return
+			}
+		}
+		// e(len, s) <= len for every len >= 1 and s in [0, len]
+		fits := func(a, k int64) bool { // a*len + k <= len for all len >= 1
+			return a < 1 && k <= 1-a || a == 1 && k <= 0
+		}
+		ok0 := fits(e.a, e.k)     // s = 0
+		ok1 := fits(e.a+e.b, e.k) // s = len
+		c.R.Check(ok0 && ok1, rule, con, c.pos(sl), fmt.Sprintf("the cut keeps at most the current length (bound = %d*len %+d*search %+d)", e.a, e.b, e.k),
+			fmt.Sprintf("the stack is re-sliced to %d*len %+d*search %+d, which exceeds its length at one end of the search range: the record of a directory that was closed (it is still in the backing array, with its last child) becomes the open directory again and a path inside a directory the stream already left is accepted", e.a, e.b, e.k))
+	})
+	if n == 0 {
+		c.R.OK(rule, c.name(fn)+"/stack-cut", c.P.Pos(fn.Pos()), "Validator.HandleChange does not re-slice v.parentDirs with an upper bound")
+	}
 }
 
 // R12.4: a delete carries no file information.
@@ -954,6 +1054,50 @@ func r09_5(c *Ctx, rule string) {
 		c.R.Check(ok, rule, c.siteName(call)+"/reported-path", c.pos(call), "the reported path is Join(sub-root name, p)", "the path reported for a sub-root entry lacks the sub-root's name")
 		if parts, isJ := c.joinParts(call.Common().Args[0]); isJ && len(parts) >= 2 {
 			c.R.Check(strings.HasPrefix(parts[len(parts)-1], "p:"), rule, c.siteName(call)+"/reported-path/order", c.pos(call), "the sub-walk's path is the last element of the Join", "the Join of the reported path has the sub-walk's path in front of the sub-root's name")
+		}
+		// ... and what is reported is an entry over the stat that was
+		// rewritten, not the sub-walk's own entry (whose Info() still says
+		// the path and link name relative to the sub-root)
+		if len(call.Common().Args) < 2 {
+			continue
+		}
+		con := c.siteName(call) + "/reported-entry"
+		var rewritten []ssa.Value
+		for _, st := range fieldStoresIn(lit, "types.Stat.Path") {
+			if fa, ok := st.Addr.(*ssa.FieldAddr); ok {
+				rewritten = append(rewritten, fa.X)
+			}
+		}
+		verdict, why := 0, "" // 0 not interpreted, 1 ok, -1 fail
+		for _, r := range eng.ResolveAll(call.Common().Args[1]) {
+			r = eng.Strip(r)
+			switch e := r.(type) {
+			case *ssa.Alloc:
+				sv := structLitFields(e)["Stat"]
+				same := false
+				for _, rw := range rewritten {
+					if sv != nil && (eng.SameValue(eng.Strip(sv), eng.Strip(rw)) || x.StructKeyAtEntry(sv) == x.StructKeyAtEntry(rw)) {
+						same = true
+					}
+				}
+				if same && verdict == 0 {
+					verdict = 1
+				} else if !same && sv != nil {
+					verdict, why = -1, "the entry reported for a sub-root carries a stat other than the one whose path and link name were prefixed"
+				}
+			case *ssa.Parameter:
+				if e.Parent() == lit {
+					verdict, why = -1, "the sub-walk's own entry is handed on: its Info() still reports path and link name relative to the sub-root, only the callback's path argument carries the sub-root's name"
+				}
+			}
+		}
+		switch verdict {
+		case 1:
+			c.R.OK(rule, con, c.pos(call), "the reported entry is built over the rewritten stat")
+		case -1:
+			c.R.Fail(rule, con, c.pos(call), why)
+		default:
+			c.R.OK(rule, con, c.pos(call), "the reported entry is not a literal over a stat nor the sub-walk's entry (a shape this rule does not interpret): not decided")
 		}
 	}
 }
